@@ -25,7 +25,7 @@ Proof.
   pose proof (reach_GI_dec (blc03 sc) (blc03b sc) (blc03b_ok sc) false false b sched W) as G.
   change (run_sched_g false false false) with run_sched in G. fold sc in G. fold s in G.
   destruct (GI_blocked b _ _ _ _ _ t k l G PK BL) as [H [K [o [p' [A [CU' B]]]]]].
-  rewrite CU in CU'. inversion CU'; subst o p'. cbn [blk_of] in B.
+  rewrite CU in CU'. inversion CU'; subst o p'. cbn [blk_of] in B. destruct (blocking_flavour f); [|contradiction].
   assert (HH : writer_is (w_raw (b_w s) l') t = true \/ memb t (readers (w_raw (b_w s) l')) = true).
   { unfold holds_b in HB. apply orb_true_iff in HB. exact HB. }
   destruct (agree_holds b _ _ _ _ _ A HH) as [x Hx]. apply (B _ Hx).
